@@ -51,6 +51,9 @@ def run_pair(case):
                 c = cl[ci]
                 if c.conn is None and c.svc.started:
                     choices += [["open", ci]] * 3
+                    if c.ever_opened and rng.random() < 0.3:
+                        # a reconnect attempt that reaches TCP but fails the WebSocket negotiation
+                        choices += [["ws_fail", ci]]
                 if c.conn is not None:
                     if c.conn.c2s:
                         choices += [["c2s", ci]] * 4
